@@ -12,7 +12,7 @@ var c10Funcs = []string{
 	"simpleToken$1", "numberToken", "lineCommentToken", "blockCommentToken", "stringLiteralToken",
 	"expectAnyOfNext", "expectNext", "optNewline", "readEnumOptionValue", "readUntil", "readEnum", "readDeprecated",
 	"skipEndOfLineComments", "readStruct", "readFieldType", "readMessage", "readUnion", "readConst", "readOpCode",
-	"readBitflagExpr", "parseBitflagExpr", "parseParenExpr", "evaluateBitflagExpr", "evaluateBitflagExpSigned", "evaluateBitflagExprUnsigned", "readBlockComment", "sanitizeComment", "readError", "decodeIntegerType", "bytesToOpCode", "parseCommentTag",
+	"readBitflagExpr", "parseBitflagExpr", "parseParenExpr", "evaluateBitflagExpr", "evaluateBitflagExpSigned", "evaluateBitflagExprUnsigned", "readBlockComment", "sanitizeComment", "readError", "decodeIntegerType", "bytesToOpCode", "parseCommentTag", "isHex", "isNumeric",
 }
 
 // C10: ReadFile never panics, reports reader failures, and reports success only at the end of the input.
